@@ -36,9 +36,9 @@ type ctxTally struct {
 	votes     map[ucon.VoteType]map[common.Address]*entry
 	own       map[ucon.VoteType]common.Hash // kinds the validator under test voted in this context
 	committed bool
-	peak      map[peakKey]uint64   // highest tally a (kind, hash) ever had in this context
+	peak      map[peakKey]uint64                    // highest tally a (kind, hash) ever had in this context
 	taint     map[peakKey]map[common.Address]uint32 // unverifiable seat counts the engine accepted while it was ahead of its voter
-	lost      map[common.Hash]bool // commits announced on a quorum that had been reached and was lost again
+	lost      map[common.Hash]bool                  // commits announced on a quorum that had been reached and was lost again
 }
 
 type peakKey struct {
@@ -98,6 +98,23 @@ func (o *oracle) classify(generic string, vk ctxKey, kind ucon.VoteType, hash co
 	return generic
 }
 
+// report files a violation of the tally oracle. In the C02 part (same streams, other oracle)
+// the tally still runs — the generator steers by it — but its verdicts are only logged.
+func (o *oracle) report(class, format string, a ...interface{}) {
+	if o.w.mode != "C03" {
+		o.w.r.Logf("   (tally oracle, not judged in this part: %s)", class)
+		return
+	}
+	o.w.r.Report(class, format, a...)
+}
+
+// forgetAll: the validator restarted; a new Voter has no tallies.
+func (o *oracle) forgetAll() {
+	o.ctxs = map[ctxKey]*ctxTally{}
+	o.packed = map[common.Hash]*packedSets{}
+	o.added, o.in, o.lenient = nil, nil, nil
+}
+
 func (o *oracle) qPos() uint64  { return o.w.cfg.T * 685 / 1000 }
 func (o *oracle) qCert() uint64 { return o.w.cfg.Tcert * 585 / 1000 }
 
@@ -114,7 +131,7 @@ func (o *oracle) ctx(ck ctxKey) *ctxTally {
 func (o *oracle) enterContext(ck ctxKey, cert bool) {
 	ct := o.ctx(ck)
 	if ct.cert != cert {
-		o.w.r.Report("certificate-flag-wrong", "context %s: engine says certificate=%v, round %% %d == 0 is %v", ck, cert, params.ACoCHTFrequency, ct.cert)
+		o.report("certificate-flag-wrong", "context %s: engine says certificate=%v, round %% %d == 0 is %v", ck, cert, params.ACoCHTFrequency, ct.cert)
 	}
 	o.w.r.FP("ctx", fmt.Sprint(ck.index), fmt.Sprint(cert))
 }
@@ -257,7 +274,7 @@ func (o *oracle) ownVote(kind ucon.VoteType, payload []byte) {
 	w, r := o.w, o.w.r
 	v := new(ucon.BlockHashWithVotes)
 	if err := rlp.DecodeBytes(payload, v); err != nil || v.Round == nil || v.Vote == nil {
-		r.Report("own-vote-malformed", "the engine emitted an undecodable %s vote: %v", kindName(kind), err)
+		o.report("own-vote-malformed", "the engine emitted an undecodable %s vote: %v", kindName(kind), err)
 		return
 	}
 	vk := ctxKey{v.Round.Uint64(), v.RoundIndex}
@@ -265,7 +282,7 @@ func (o *oracle) ownVote(kind ucon.VoteType, payload []byte) {
 	r.Logf("   OWN %s %s %s claimed=%d verified=%d", kindName(kind), vk, hname(v.BlockHash), v.Vote.Votes, verified)
 	r.FP("own", kindName(kind))
 	if !w.voterSet || vk != w.voterCtx {
-		r.Report("own-vote-outside-context", "own %s vote for %s while the voter is in %s", kindName(kind), vk, w.voterCtx)
+		o.report("own-vote-outside-context", "own %s vote for %s while the voter is in %s", kindName(kind), vk, w.voterCtx)
 	}
 	ct := o.ctx(vk)
 	m := ct.votes[kind]
@@ -292,14 +309,14 @@ func (o *oracle) ownVote(kind ucon.VoteType, payload []byte) {
 			r.Probe("tally exactly at quorum")
 		}
 		if have < q {
-			r.Report(o.classify("precommit-without-counted-quorum", vk, ucon.Prevote, v.BlockHash, have, q), "own precommit for %s in %s: prevotes counted for that block weigh %d, quorum floor(%d*0.685) = %d | %s",
+			o.report(o.classify("precommit-without-counted-quorum", vk, ucon.Prevote, v.BlockHash, have, q), "own precommit for %s in %s: prevotes counted for that block weigh %d, quorum floor(%d*0.685) = %d | %s",
 				hname(v.BlockHash), vk, have, w.cfg.T, q, o.dump(vk, ucon.Prevote))
 		}
 	case ucon.Certificate:
 		r.Probe("own certificate vote")
 		have := o.weight(vk, ucon.Precommit, v.BlockHash)
 		if have < q {
-			r.Report(o.classify("certificate-vote-without-counted-quorum", vk, ucon.Precommit, v.BlockHash, have, q), "own certificate vote for %s in %s: precommits counted for that block weigh %d, quorum %d | %s",
+			o.report(o.classify("certificate-vote-without-counted-quorum", vk, ucon.Precommit, v.BlockHash, have, q), "own certificate vote for %s in %s: precommits counted for that block weigh %d, quorum %d | %s",
 				hname(v.BlockHash), vk, have, q, o.dump(vk, ucon.Precommit))
 		}
 	}
@@ -308,7 +325,6 @@ func (o *oracle) ownVote(kind ucon.VoteType, payload []byte) {
 // checkSet checks a packed vote set against the tally: only counted votes for `hash`, no
 // equivocator, no duplicate signer, the verified weights, total >= quorum.
 func (o *oracle) checkSet(what string, vk ctxKey, kind ucon.VoteType, hash common.Hash, addrs []common.Address, votes []*ucon.SingleVote) {
-	r := o.w.r
 	ct := o.ctx(vk)
 	set := o.w.chain.lookBackFor(vk.round, kind).set
 	seenIdx := map[uint32]bool{}
@@ -317,33 +333,33 @@ func (o *oracle) checkSet(what string, vk ctxKey, kind ucon.VoteType, hash commo
 	for i, a := range addrs {
 		sv := votes[i]
 		if v, ok := set.vals.GetByIndex(int(sv.VoterIdx)); !ok || v.MainAddress() != a {
-			r.Report("commit-packs-uncounted-vote", "%s %s set for %s in %s: vote filed under %s carries voter index %d, which is not that validator's", what, kindName(kind), hname(hash), vk, o.name(a), sv.VoterIdx)
+			o.report("commit-packs-uncounted-vote", "%s %s set for %s in %s: vote filed under %s carries voter index %d, which is not that validator's", what, kindName(kind), hname(hash), vk, o.name(a), sv.VoterIdx)
 			continue
 		}
 		if seenAddr[a] || seenIdx[sv.VoterIdx] {
-			r.Report("commit-packs-duplicate-signer", "%s %s set for %s in %s lists signer %s (index %d) twice", what, kindName(kind), hname(hash), vk, o.name(a), sv.VoterIdx)
+			o.report("commit-packs-duplicate-signer", "%s %s set for %s in %s lists signer %s (index %d) twice", what, kindName(kind), hname(hash), vk, o.name(a), sv.VoterIdx)
 			continue
 		}
 		seenAddr[a], seenIdx[sv.VoterIdx] = true, true
 		e := ct.votes[kind][a]
 		switch {
 		case e == nil && ct.taint[peakKey{kind, hash}][a] == sv.Votes && sv.Votes > 0:
-			r.Report(classLenient, "%s %s set for %s in %s contains the vote of %s with the unverifiable seat count %d, accepted while the engine was ahead of its voter | %s",
+			o.report(classLenient, "%s %s set for %s in %s contains the vote of %s with the unverifiable seat count %d, accepted while the engine was ahead of its voter | %s",
 				what, kindName(kind), hname(hash), vk, o.name(a), sv.Votes, o.dump(vk, kind))
 		case e == nil || e.hash != hash:
-			r.Report("commit-packs-uncounted-vote", "%s %s set for %s in %s contains a vote of %s (claimed weight %d) that was never counted for this block | %s",
+			o.report("commit-packs-uncounted-vote", "%s %s set for %s in %s contains a vote of %s (claimed weight %d) that was never counted for this block | %s",
 				what, kindName(kind), hname(hash), vk, o.name(a), sv.Votes, o.dump(vk, kind))
 		case e.equivocated:
-			r.Report("commit-packs-equivocator", "%s %s set for %s in %s contains the vote of equivocator %s (weight %d) | %s",
+			o.report("commit-packs-equivocator", "%s %s set for %s in %s contains the vote of equivocator %s (weight %d) | %s",
 				what, kindName(kind), hname(hash), vk, o.name(a), sv.Votes, o.dump(vk, kind))
 		case sv.Votes != e.weight:
-			r.Report("commit-packs-wrong-weight", "%s %s set for %s in %s: %s packed with weight %d, verified weight %d", what, kindName(kind), hname(hash), vk, o.name(a), sv.Votes, e.weight)
+			o.report("commit-packs-wrong-weight", "%s %s set for %s in %s: %s packed with weight %d, verified weight %d", what, kindName(kind), hname(hash), vk, o.name(a), sv.Votes, e.weight)
 		default:
 			sum += uint64(e.weight)
 		}
 	}
 	if q := o.quorumFor(kind); sum < q && !ct.lost[hash] {
-		r.Report(o.classify("commit-set-below-quorum", vk, kind, hash, sum, q), "%s %s set for %s in %s: legitimately packed weight %d < quorum %d | %s", what, kindName(kind), hname(hash), vk, sum, q, o.dump(vk, kind))
+		o.report(o.classify("commit-set-below-quorum", vk, kind, hash, sum, q), "%s %s set for %s in %s: legitimately packed weight %d < quorum %d | %s", what, kindName(kind), hname(hash), vk, sum, q, o.dump(vk, kind))
 	}
 }
 
@@ -397,15 +413,15 @@ func (o *oracle) commitEvent(e ucon.CommitEvent) {
 		r.Probe("tally exactly at quorum")
 	}
 	if !w.voterSet || vk != w.voterCtx {
-		r.Report("commit-outside-context", "commit for %s while the voter is in %s", vk, w.voterCtx)
+		o.report("commit-outside-context", "commit for %s while the voter is in %s", vk, w.voterCtx)
 	}
 	if pk := ct.peak[peakKey{ucon.Precommit, hash}]; pc < q && ct.cert && pk >= q {
 		// the precommit quorum had been reached (and remembered) but equivocators were removed since
 		ct.lost[hash] = true
-		r.Report(classLostQuorum, "certificate context %s: commit of %s announced when the certificate quorum arrived, although the precommits counted for the block had fallen from %d to %d (quorum floor(%d*0.685) = %d) after an equivocator's weight was removed | %s",
+		o.report(classLostQuorum, "certificate context %s: commit of %s announced when the certificate quorum arrived, although the precommits counted for the block had fallen from %d to %d (quorum floor(%d*0.685) = %d) after an equivocator's weight was removed | %s",
 			vk, hname(hash), pk, pc, w.cfg.T, q, o.dump(vk, ucon.Precommit))
 	} else if pc < q {
-		r.Report(o.classify("commit-without-counted-quorum", vk, ucon.Precommit, hash, pc, q), "commit of %s in %s: precommits counted for that block weigh %d, quorum floor(%d*0.685) = %d | %s", hname(hash), vk, pc, w.cfg.T, q, o.dump(vk, ucon.Precommit))
+		o.report(o.classify("commit-without-counted-quorum", vk, ucon.Precommit, hash, pc, q), "commit of %s in %s: precommits counted for that block weigh %d, quorum floor(%d*0.685) = %d | %s", hname(hash), vk, pc, w.cfg.T, q, o.dump(vk, ucon.Precommit))
 	}
 	ps := &packedSets{vk: vk, pre: map[uint32]uint32{}, cert: map[uint32]uint32{}}
 	for _, sv := range e.ChamberPrecommits {
@@ -418,7 +434,7 @@ func (o *oracle) commitEvent(e ucon.CommitEvent) {
 	as, vs := splitVotes(e.ChamberPrecommits)
 	o.checkSet("CommitEvent", vk, ucon.Precommit, hash, as, vs)
 	if len(e.HousePrecommits) > 0 {
-		r.Report("commit-packs-uncounted-vote", "CommitEvent for %s in %s carries %d House precommits; no House vote is ever countable", hname(hash), vk, len(e.HousePrecommits))
+		o.report("commit-packs-uncounted-vote", "CommitEvent for %s in %s carries %d House precommits; no House vote is ever countable", hname(hash), vk, len(e.HousePrecommits))
 	}
 	if ct.cert {
 		r.Probe("certificate commit")
@@ -428,15 +444,15 @@ func (o *oracle) commitEvent(e ucon.CommitEvent) {
 		}
 		if pk := ct.peak[peakKey{ucon.Certificate, hash}]; cw < qc && pk >= qc {
 			ct.lost[hash] = true
-			r.Report(classLostQuorum, "certificate context %s: commit of %s announced when the precommit quorum arrived, although the certificate votes counted for the block had fallen from %d to %d (quorum floor(%d*0.585) = %d) after an equivocator's weight was removed | %s",
+			o.report(classLostQuorum, "certificate context %s: commit of %s announced when the precommit quorum arrived, although the certificate votes counted for the block had fallen from %d to %d (quorum floor(%d*0.585) = %d) after an equivocator's weight was removed | %s",
 				vk, hname(hash), pk, cw, w.cfg.Tcert, qc, o.dump(vk, ucon.Certificate))
 		} else if cw < qc {
-			r.Report(o.classify("commit-without-certificate-quorum", vk, ucon.Certificate, hash, cw, qc), "commit of %s in certificate context %s: certificate votes counted for that block weigh %d, quorum floor(%d*0.585) = %d | %s", hname(hash), vk, cw, w.cfg.Tcert, qc, o.dump(vk, ucon.Certificate))
+			o.report(o.classify("commit-without-certificate-quorum", vk, ucon.Certificate, hash, cw, qc), "commit of %s in certificate context %s: certificate votes counted for that block weigh %d, quorum floor(%d*0.585) = %d | %s", hname(hash), vk, cw, w.cfg.Tcert, qc, o.dump(vk, ucon.Certificate))
 		}
 		as, vs := splitVotes(e.ChamberCerts)
 		o.checkSet("CommitEvent", vk, ucon.Certificate, hash, as, vs)
 	} else if len(e.ChamberCerts) > 0 {
-		r.Report("commit-packs-uncounted-vote", "CommitEvent for %s in non-certificate context %s carries certificate votes", hname(hash), vk)
+		o.report("commit-packs-uncounted-vote", "CommitEvent for %s in non-certificate context %s carries certificate votes", hname(hash), vk)
 	}
 	ct.committed = true
 }
@@ -450,7 +466,7 @@ func (o *oracle) indexChange(e ucon.RoundIndexChangeEvent) {
 	r.Probe("index change by votes")
 	r.FP("index-change")
 	if have < q {
-		r.Report(o.classify("index-change-without-counted-quorum", vk, ucon.NextIndex, e.BlockHash, have, q), "round-index change of %s for %s: next-index votes counted for that hash weigh %d, quorum %d | %s", vk, hname(e.BlockHash), have, q, o.dump(vk, ucon.NextIndex))
+		o.report(o.classify("index-change-without-counted-quorum", vk, ucon.NextIndex, e.BlockHash, have, q), "round-index change of %s for %s: next-index votes counted for that hash weigh %d, quorum %d | %s", vk, hname(e.BlockHash), have, q, o.dump(vk, ucon.NextIndex))
 	}
 }
 
@@ -495,7 +511,7 @@ func (o *oracle) lookBackReaders(num uint64) (seedHeader *types.Header, vld stat
 // verifySealed offers a sealed block to the independent verifier and checks the packed sets of
 // the header against the tally.
 func (o *oracle) verifySealed(block *types.Block, what string) error {
-	w, r := o.w, o.w.r
+	w := o.w
 	h := block.Header()
 	num := h.Number.Uint64()
 	parent := w.chain.GetHeader(h.ParentHash, num-1)
@@ -516,24 +532,24 @@ func (o *oracle) verifySealed(block *types.Block, what string) error {
 		} else if ps != nil && (o.taintWeight(ps.vk, ucon.Precommit, block.Hash()) > 0 || o.taintWeight(ps.vk, ucon.Certificate, block.Hash()) > 0) {
 			cls = classLenient
 		}
-		r.Report(cls, "the header of block %d %s assembled by the engine (%s) is rejected by an independent verifier: %v", num, hname(block.Hash()), what, verr)
+		o.report(cls, "the header of block %d %s assembled by the engine (%s) is rejected by an independent verifier: %v", num, hname(block.Hash()), what, verr)
 	}
 	if what == "commit" {
 		// what PackVotes produced, against the tally
 		if uv, e := ucon.ExtractUconValidators(h, params.LookBackPos); e != nil {
-			r.Report("commit-does-not-verify", "header.Validator of block %d does not decode: %v", num, e)
+			o.report("commit-does-not-verify", "header.Validator of block %d does not decode: %v", num, e)
 		} else {
 			ps := o.packed[block.Hash()]
 			if ps == nil || ps.vk != (ctxKey{num, uv.RoundIndex}) {
-				r.Report("sealed-header-differs-from-commit", "block %d %s sealed for round index %d without a matching CommitEvent", num, hname(block.Hash()), uv.RoundIndex)
+				o.report("sealed-header-differs-from-commit", "block %d %s sealed for round index %d without a matching CommitEvent", num, hname(block.Hash()), uv.RoundIndex)
 			} else {
 				o.checkPacked(ps.vk, "precommit", block.Hash(), uv.ChamberCommitters, ps.pre)
 				if len(uv.HouseCommitters) > 0 || len(uv.ChamberCerts) > 0 {
-					r.Report("sealed-header-differs-from-commit", "header.Validator of block %d carries House or certificate votes", num)
+					o.report("sealed-header-differs-from-commit", "header.Validator of block %d carries House or certificate votes", num)
 				}
 				uc, e := ucon.ExtractUconValidators(h, params.LookBackCert)
 				if e != nil {
-					r.Report("commit-does-not-verify", "header.Certificate of block %d does not decode: %v", num, e)
+					o.report("commit-does-not-verify", "header.Certificate of block %d does not decode: %v", num, e)
 				} else {
 					o.checkPacked(ps.vk, "certificate", block.Hash(), uc.ChamberCerts, ps.cert)
 				}
@@ -546,23 +562,37 @@ func (o *oracle) verifySealed(block *types.Block, what string) error {
 // checkPacked: what PackVotes put into the header must be exactly the decision snapshot of the
 // CommitEvent (which was checked against the tally when it was announced): same signers, same
 // seat counts, nobody twice.
+// verifyForged: a block sealed by the simulator's own forge (all honest votes). A rejection
+// means the whole network's votes do not reach the quorum (possible with few validators) — then
+// the block simply could not have been committed elsewhere — or a harness bug.
+func (o *oracle) verifyForged(block *types.Block) error {
+	w := o.w
+	h := block.Header()
+	num := h.Number.Uint64()
+	parent := w.chain.GetHeader(h.ParentHash, num-1)
+	seedHeader, vld, certHeader, certVld, err := o.lookBackReaders(num)
+	if parent == nil || err != nil {
+		panic("voterworld: forged block without look-back data")
+	}
+	return w.ver.VerifySideChainHeader(&w.yp.CaravelParams, seedHeader, vld, certHeader, certVld, block, []*types.Block{types.NewBlockWithHeader(parent)})
+}
+
 func (o *oracle) checkPacked(vk ctxKey, kind string, hash common.Hash, list []ucon.SingleVote, want map[uint32]uint32) {
-	r := o.w.r
 	seen := map[uint32]bool{}
 	for _, sv := range list {
 		votes, ok := want[sv.VoterIdx]
 		switch {
 		case seen[sv.VoterIdx]:
-			r.Report("commit-packs-duplicate-signer", "sealed header of %s (%s): %s set lists voter index %d twice", hname(hash), vk, kind, sv.VoterIdx)
+			o.report("commit-packs-duplicate-signer", "sealed header of %s (%s): %s set lists voter index %d twice", hname(hash), vk, kind, sv.VoterIdx)
 		case !ok:
-			r.Report("sealed-header-differs-from-commit", "sealed header of %s (%s): %s set contains voter index %d, which the CommitEvent did not carry", hname(hash), vk, kind, sv.VoterIdx)
+			o.report("sealed-header-differs-from-commit", "sealed header of %s (%s): %s set contains voter index %d, which the CommitEvent did not carry", hname(hash), vk, kind, sv.VoterIdx)
 		case votes != sv.Votes:
-			r.Report("sealed-header-differs-from-commit", "sealed header of %s (%s): %s vote of index %d has weight %d, CommitEvent had %d", hname(hash), vk, kind, sv.VoterIdx, sv.Votes, votes)
+			o.report("sealed-header-differs-from-commit", "sealed header of %s (%s): %s vote of index %d has weight %d, CommitEvent had %d", hname(hash), vk, kind, sv.VoterIdx, sv.Votes, votes)
 		}
 		seen[sv.VoterIdx] = true
 	}
 	if len(seen) != len(want) {
-		r.Report("sealed-header-differs-from-commit", "sealed header of %s (%s): %s set has %d signers, CommitEvent had %d", hname(hash), vk, kind, len(seen), len(want))
+		o.report("sealed-header-differs-from-commit", "sealed header of %s (%s): %s set has %d signers, CommitEvent had %d", hname(hash), vk, kind, len(seen), len(want))
 	}
 }
 
@@ -612,7 +642,7 @@ func (o *oracle) endStimulus() {
 		switch a.kind {
 		case ucon.Prevote:
 			if _, voted := ct.own[ucon.Precommit]; o.weight(vk, ucon.Prevote, a.hash) >= q && !voted && ownW(ucon.Precommit) > 0 {
-				r.Report("no-precommit-on-counted-quorum", "fault-free run: prevotes for %s in %s weigh %d >= quorum %d and the validator holds %d precommit seats, but it did not precommit | %s",
+				o.report("no-precommit-on-counted-quorum", "fault-free run: prevotes for %s in %s weigh %d >= quorum %d and the validator holds %d precommit seats, but it did not precommit | %s",
 					hname(a.hash), vk, o.weight(vk, ucon.Prevote, a.hash), q, ownW(ucon.Precommit), o.dump(vk, ucon.Prevote))
 			}
 		case ucon.Precommit, ucon.Certificate:
@@ -621,14 +651,14 @@ func (o *oracle) endStimulus() {
 			}
 			if ct.cert {
 				if _, voted := ct.own[ucon.Certificate]; !voted && ownW(ucon.Certificate) > 0 {
-					r.Report("no-certificate-vote-on-counted-quorum", "fault-free run: precommits for %s in certificate context %s weigh %d >= quorum %d and the validator holds %d certificate seats, but it did not vote", hname(a.hash), vk, o.weight(vk, ucon.Precommit, a.hash), q, ownW(ucon.Certificate))
+					o.report("no-certificate-vote-on-counted-quorum", "fault-free run: precommits for %s in certificate context %s weigh %d >= quorum %d and the validator holds %d certificate seats, but it did not vote", hname(a.hash), vk, o.weight(vk, ucon.Precommit, a.hash), q, ownW(ucon.Certificate))
 				}
 				if o.weight(vk, ucon.Certificate, a.hash) < o.qCert() {
 					continue
 				}
 			}
 			if known(a.hash) && !ct.committed {
-				r.Report("no-commit-on-counted-quorum", "fault-free run: precommits for the known block %s in %s weigh %d >= quorum %d (certificate context: %v) but no commit was announced | %s",
+				o.report("no-commit-on-counted-quorum", "fault-free run: precommits for the known block %s in %s weigh %d >= quorum %d (certificate context: %v) but no commit was announced | %s",
 					hname(a.hash), vk, o.weight(vk, ucon.Precommit, a.hash), q, ct.cert, o.dump(vk, ucon.Precommit))
 			}
 		}
